@@ -307,3 +307,71 @@ c18_inst! {
     c18_decode_not_ignore_mi = (3, true, 52);
     c18_decode_unknown_block_data = (5, false, 52);
 }
+
+// ---------------------------------------------------------------------------------------------
+// C18 with CONCRETE attribute types (symbolic values, header, transaction id): the decoder's
+// dispatch then folds to one handler per attribute.
+//   PATTERN 0: FINGERPRINT, PRIORITY        (36 bytes)
+//   PATTERN 1: PRIORITY, FINGERPRINT, unknown 0x7F02 (44 bytes)
+// ---------------------------------------------------------------------------------------------
+fn c18c<const OPT: u8, const PATTERN: u8, const LL: usize>() {
+    let mut buf: [u8; LL] = kani::any();
+    put_header(&mut buf, (LL - 20) as u16);
+    let types: [u16; 3] = if PATTERN == 0 { [0x8028, 0x0024, 0] } else { [0x0024, 0x8028, 0x7f02] };
+    let n = if PATTERN == 0 { 2 } else { 3 };
+    let mut i = 0;
+    while i < n {
+        let o = 20 + 8 * i;
+        buf[o] = (types[i] >> 8) as u8;
+        buf[o + 1] = types[i] as u8;
+        buf[o + 2] = 0;
+        buf[o + 3] = 4;
+        i += 1;
+    }
+    let dec = mk_decoder::<OPT>();
+    unsafe {
+        REC_N = 0;
+    }
+    let r = dec.decode(&buf);
+    assert!(r.is_ok(), "C03/C18: a well-formed message decodes under every option set");
+    let recorded = unsafe { REC_N };
+    let all = OPT & 2 != 0;
+    if PATTERN == 0 {
+        // PRIORITY after FINGERPRINT is not admitted
+        assert!(recorded == if all { 2 } else { 1 }, "C18/C09: default result = admitted subsequence; not_ignore = every wire attribute; no context == default context");
+        assert!(unsafe { REC_ATTRS[0].code } == 0x8028);
+    } else {
+        assert!(recorded == if all { 3 } else { 2 }, "C18/C09: default result = admitted subsequence; not_ignore = every wire attribute; no context == default context");
+        assert!(unsafe { REC_ATTRS[0].code } == 0x0024 && unsafe { REC_ATTRS[1].code } == 0x8028);
+        if all {
+            let u = unsafe { REC_ATTRS[2] };
+            assert!(u.code == 0x7f02);
+            if OPT & 4 != 0 {
+                assert!(u.has_data && u.dlen == 4 && u.d0 == buf[40] && u.d3 == buf[43], "C18: with_unknown_data keeps exactly the raw value bytes");
+            } else {
+                assert!(!u.has_data, "C18: raw data only when asked for");
+            }
+        }
+    }
+    std::mem::forget(r);
+    std::mem::forget(dec);
+}
+macro_rules! c18c_inst {
+    ($($name:ident = ($o:expr, $p:expr, $l:expr);)*) => {$(
+        #[kani::proof]
+        #[kani::unwind(6)]
+        #[kani::stub(alloc::fmt::format, nofmt)]
+        #[kani::stub(<crate::types::TransactionId as std::default::Default>::default, tid_any)]
+        #[kani::stub(crate::registry::get_handler, registry_small)]
+        #[kani::stub(crate::message::StunMessageBuilder::with_attribute, rec_with_attribute)]
+        fn $name() { c18c::<$o, $p, $l>(); }
+    )*};
+}
+c18c_inst! {
+    c18c_noctx_fp_prio = (0, 0, 36);
+    c18c_default_fp_prio = (1, 0, 36);
+    c18c_not_ignore_fp_prio = (3, 0, 36);
+    c18c_noctx_prio_fp_unk = (0, 1, 44);
+    c18c_not_ignore_unknown_data = (7, 1, 44);
+    c18c_not_ignore_prio_fp_unk = (3, 1, 44);
+}
